@@ -129,7 +129,9 @@ func c19Instants(c mintCfg) []time.Duration {
 
 func runC19(rc *RunCtx) {
 	cfgs := c19Configs(rc.Thorough())
-	supplies := []string{"1", "1000000", "1000000000007", "1000000000000000000000000000000"}
+	// supply 0: a mint denomination nobody holds yet; the ratio is undefined there, so only the
+	// absence of a crash and the agreement of event and query are demanded
+	supplies := []string{"0", "1", "1000000", "1000000000007", "1000000000000000000000000000000"}
 	deltas := []time.Duration{time.Millisecond, time.Second, time.Hour}
 	genesis := harness.BuildGenesis(harness.Genesis{})
 	worlds := make([]*harness.World, rc.Workers)
@@ -155,8 +157,10 @@ func runC19(rc *RunCtx) {
 				continue
 			}
 			k.SetMinterState(base, cfg.freshState(harness.T0))
-			if err := w.App.BankKeeper.MintCoins(base, mtypes.ModuleName, sdk.NewCoins(sdk.NewCoin(c19Denom, mustInt(sup)))); err != nil {
-				panic(err)
+			if sup != "0" {
+				if err := w.App.BankKeeper.MintCoins(base, mtypes.ModuleName, sdk.NewCoins(sdk.NewCoin(c19Denom, mustInt(sup)))); err != nil {
+					panic(err)
+				}
 			}
 			for _, at := range c19Instants(cfg) {
 				if rc.Expired() {
@@ -168,7 +172,19 @@ func runC19(rc *RunCtx) {
 						c = stepMint(w, c, harness.T0.Add(at-via))
 					}
 					T := harness.T0.Add(at)
-					c = stepMint(w, c, T)
+					report0 := func(sig, f string, a ...interface{}) {
+						rc.Violate(&explore.Violation{Property: "C19", Sig: "C19:" + sig, What: fmt.Sprintf("%s supply0=%s at +%s: ", cfg, sup, at) + fmt.Sprintf(f, a...),
+							Detail: map[string]interface{}{"config": cfg, "supply": sup, "at": at, "via": via}})
+					}
+					var crashed interface{}
+					func() {
+						defer func() { crashed = recover() }()
+						c = stepMint(w, c, T)
+					}()
+					if crashed != nil {
+						report0("block-panics", "the minter's BeginBlocker (which computes the reported inflation) panicked: %v", crashed)
+						continue
+					}
 					evs := c.EventManager().ABCIEvents()
 					mintEv := harness.EventsOfType(evs, "chain4energy.c4echain.cfeminter.Mint")
 					atomic.AddInt64(&evals, 1)
@@ -187,6 +203,9 @@ func runC19(rc *RunCtx) {
 						report("event-vs-query", "Mint event reports inflation %s, query %s", s, qr.Inflation)
 					}
 					supply := w.App.BankKeeper.GetSupply(c, c19Denom).Amount
+					if supply.IsZero() {
+						continue // rate / supply is undefined
+					}
 					R := sched.RatePerYear(T)
 					want := new(big.Rat).Quo(R, new(big.Rat).SetInt(supply.BigInt()))
 					got := ratOfDec(qr.Inflation)
